@@ -115,11 +115,14 @@ class Spec:
             n += {"real": 1, "int": 1}.get(t[0], None) or (t[1] if t[0] in ("binary", "perm") else t[2])
         return n
 
+    # text labels that read like numbers (part numbers, zip codes, version strings): elements are labels, whatever they look like
+    NUMSTR = ["007", "10", "4.0", "1e3", "-0", " 12", "1_000", "inf", "NaN ", "0x1F"]
+
     def elem(self, t, k):
-        return k if t[-1] == "int" else f"e{k}"
+        return k if t[-1] == "int" else (self.NUMSTR[k] if t[-1] == "numstr" else f"e{k}")
 
     def elem_index(self, t, e):
-        return e if t[-1] == "int" else int(e[1:])
+        return e if t[-1] == "int" else (self.NUMSTR.index(e) if t[-1] == "numstr" else int(e[1:]))
 
     def flatten(self, decoded):
         z = []
